@@ -3,7 +3,7 @@ generator) apply every semantic mutation the property lists and require falsy-or
 with the extracted model (primitive answered by `cryptography` on raw numbers); detached, in-message and in-key carriers."""
 import copy, warnings
 
-from .common import Driver, hx, unhx, hn, unhn, outcome, load_repo
+from .common import Driver, hx, unhx, hn, unhn, outcome, outcome_timed, load_repo
 from . import sigcommon as S
 from .c02 import Env, pgpy_signatures, t
 
@@ -23,7 +23,7 @@ def falsy(o):
 
 
 def verify_blob(env, pub, subj_obj, pkt):
-    return outcome(lambda: bool(pub.verify(subj_obj, env.pgpy.PGPSignature.from_blob(bytes(pkt)))))
+    return outcome_timed(1.0, lambda: bool(pub.verify(subj_obj, env.pgpy.PGPSignature.from_blob(bytes(pkt)))))
 
 
 SAME_SHAPE = {0x00: [0x01, 0x02, 0x40], 0x01: [0x00, 0x40], 0x10: [0x11, 0x12, 0x13, 0x16, 0x30], 0x11: [0x10, 0x13], 0x12: [0x10, 0x13],
